@@ -1,6 +1,7 @@
 import GoUefi.Model.Pkcs7
 import GoUefi.Spec.Cms
 import GoUefi.Lemmas.Der
+import GoUefi.Lemmas.SortEnc
 /-!
   Layer-by-layer lemmas for C05: what `SignPKCS7` writes is read back by `ParsePKCS7`
   (`GoUefi/Model/Pkcs7.lean`), verifies, and is accepted by `Spec.cmsVerify`.
@@ -135,10 +136,53 @@ theorem attrLoop_step {f : Nat} {s rest : Bytes} {a a' : Attrs} (hf : 0 < f)
   | zero => omega
   | succ f => simp [attrLoop, hs, h]
 
-/-- the three attributes `SignPKCS7` signs, in the order `Attributes.Marshal` writes them -/
+/-- three turns of the attribute loop over three concatenated elements -/
+theorem attrLoop_three {e1 e2 e3 : Bytes} {g1 g2 g3 : Attrs → Attrs} (a : Attrs) (f : Nat)
+    (hf : 3 ≤ f)
+    (n1 : ∀ r, (e1 ++ r).isEmpty = false) (n2 : ∀ r, (e2 ++ r).isEmpty = false)
+    (n3 : ∀ r, (e3 ++ r).isEmpty = false)
+    (h1 : ∀ r a, parseAttr (e1 ++ r) a = some (g1 a, r))
+    (h2 : ∀ r a, parseAttr (e2 ++ r) a = some (g2 a, r))
+    (h3 : ∀ r a, parseAttr (e3 ++ r) a = some (g3 a, r)) :
+    attrLoop f (e1 ++ e2 ++ e3) a = some (g3 (g2 (g1 a))) := by
+  have e : e1 ++ e2 ++ e3 = e1 ++ (e2 ++ (e3 ++ [])) := by simp
+  rw [e, attrLoop_step (by omega) (n1 _) (h1 _ _), attrLoop_step (by omega) (n2 _) (h2 _ _),
+    attrLoop_step (by omega) (n3 _) (h3 _ _), attrLoop_nil]
+
+/-- the three attributes `SignPKCS7` signs, in the order `Attributes.Marshal` writes them: the
+    DER SET OF order, i.e. sorted by their encodings (F19) -/
 def signedAttrsBody (oid : List Nat) (time md : Bytes) : Bytes :=
-  attrSeq oidContentType (oidOr oid) ++ attrSeq oidSigningTime (addASN1 tUTC time) ++
-    attrSeq oidMessageDigest (addOctets md)
+  (sortEnc [attrSeq oidContentType (oidOr oid), attrSeq oidSigningTime (addASN1 tUTC time),
+    attrSeq oidMessageDigest (addOctets md)]).flatten
+
+/-- whichever order the sort produced, the body is the concatenation of the three attributes in
+    one of the six orders -/
+theorem signedAttrsBody_cases (oid : List Nat) (time md : Bytes) :
+    let ct := attrSeq oidContentType (oidOr oid)
+    let st := attrSeq oidSigningTime (addASN1 tUTC time)
+    let dg := attrSeq oidMessageDigest (addOctets md)
+    signedAttrsBody oid time md = ct ++ st ++ dg ∨ signedAttrsBody oid time md = ct ++ dg ++ st ∨
+    signedAttrsBody oid time md = st ++ ct ++ dg ∨ signedAttrsBody oid time md = st ++ dg ++ ct ∨
+    signedAttrsBody oid time md = dg ++ ct ++ st ∨ signedAttrsBody oid time md = dg ++ st ++ ct := by
+  intro ct st dg
+  unfold signedAttrsBody
+  rcases sortEnc_three ct st dg with h | h | h | h | h | h <;> rw [h] <;> simp
+
+theorem signedAttrsBody_length (oid : List Nat) (time md : Bytes) :
+    (signedAttrsBody oid time md).length =
+      (attrSeq oidContentType (oidOr oid)).length +
+      (attrSeq oidSigningTime (addASN1 tUTC time)).length +
+      (attrSeq oidMessageDigest (addOctets md)).length := by
+  rcases signedAttrsBody_cases oid time md with h | h | h | h | h | h <;> rw [h] <;>
+    simp only [List.length_append] <;> omega
+
+theorem signedAttrsBody_length_ge (oid : List Nat) (time md : Bytes) :
+    3 ≤ (signedAttrsBody oid time md).length := by
+  rw [signedAttrsBody_length]
+  unfold attrSeq
+  have := addASN1_length_ge tSEQ (oidOr oidContentType ++ addASN1 tSET (oidOr oid))
+  have := addASN1_length_ge tSEQ (oidOr oidSigningTime ++ addASN1 tSET (addASN1 tUTC time))
+  omega
 
 theorem attrsBody_signed (oid : List Nat) (time md : Bytes) (hv : validOID oid = true) :
     attrsBody { contentType := some oid, md := md, time := some time } =
@@ -158,20 +202,23 @@ theorem attrLoop_signed (oid : List Nat) (time md : Bytes) (a : Attrs) (f : Nat)
     (hlen : (signedAttrsBody oid time md).length < 2^32) :
     attrLoop f (signedAttrsBody oid time md) a =
       some { a with contentType := some oid, time := some time, md := md } := by
-  unfold signedAttrsBody at hlen ⊢
-  have h1 : (attrSeq oidContentType (oidOr oid)).length < 2^32 := by
-    simp only [List.length_append] at hlen; omega
-  have h2 : (attrSeq oidSigningTime (addASN1 tUTC time)).length < 2^32 := by
-    simp only [List.length_append] at hlen; omega
-  have h3 : (attrSeq oidMessageDigest (addOctets md)).length < 2^32 := by
-    simp only [List.length_append] at hlen; omega
-  rw [List.append_assoc,
-    attrLoop_step (by omega) (attrSeq_append_isEmpty _ _ _) (parseAttr_contentType oid _ a hok h1),
-    attrLoop_step (by omega) (attrSeq_append_isEmpty _ _ _) (parseAttr_signingTime time _ _ ht h2)]
-  have e : attrSeq oidMessageDigest (addOctets md) = attrSeq oidMessageDigest (addOctets md) ++ [] := by
-    simp
-  rw [e, attrLoop_step (by omega) (attrSeq_append_isEmpty _ _ _) (parseAttr_messageDigest md _ _ h3),
-    attrLoop_nil]
+  rw [signedAttrsBody_length] at hlen
+  have h1 : (attrSeq oidContentType (oidOr oid)).length < 2^32 := by omega
+  have h2 : (attrSeq oidSigningTime (addASN1 tUTC time)).length < 2^32 := by omega
+  have h3 : (attrSeq oidMessageDigest (addOctets md)).length < 2^32 := by omega
+  have n1 := attrSeq_append_isEmpty oidContentType (oidOr oid)
+  have n2 := attrSeq_append_isEmpty oidSigningTime (addASN1 tUTC time)
+  have n3 := attrSeq_append_isEmpty oidMessageDigest (addOctets md)
+  have p1 := fun r a => parseAttr_contentType oid r a hok h1
+  have p2 := fun r a => parseAttr_signingTime time r a ht h2
+  have p3 := fun r a => parseAttr_messageDigest md r a h3
+  rcases signedAttrsBody_cases oid time md with h | h | h | h | h | h <;> rw [h]
+  · exact attrLoop_three a f hf n1 n2 n3 p1 p2 p3
+  · exact attrLoop_three a f hf n1 n3 n2 p1 p3 p2
+  · exact attrLoop_three a f hf n2 n1 n3 p2 p1 p3
+  · exact attrLoop_three a f hf n2 n3 n1 p2 p3 p1
+  · exact attrLoop_three a f hf n3 n1 n2 p3 p1 p2
+  · exact attrLoop_three a f hf n3 n2 n1 p3 p2 p1
 
 /-- `parseAttributes` recovers the three signed attributes and keeps the transmitted bytes -/
 theorem parseAttrs_signed (oid : List Nat) (time md rest : Bytes)
@@ -180,12 +227,7 @@ theorem parseAttrs_signed (oid : List Nat) (time md rest : Bytes)
     parseAttrs (addASN1 tCtx0 (signedAttrsBody oid time md) ++ rest) =
       some (some { contentType := some oid, md := md, time := some time, other := [],
                    raw := some (addASN1 tSET (signedAttrsBody oid time md)) }, rest) := by
-  have h3 : 3 ≤ (signedAttrsBody oid time md).length := by
-    unfold signedAttrsBody attrSeq
-    simp only [List.length_append]
-    have := addASN1_length_ge tSEQ (oidOr oidContentType ++ addASN1 tSET (oidOr oid))
-    have := addASN1_length_ge tSEQ (oidOr oidSigningTime ++ addASN1 tSET (addASN1 tUTC time))
-    omega
+  have h3 : 3 ≤ (signedAttrsBody oid time md).length := signedAttrsBody_length_ge oid time md
   simp only [parseAttrs, readOptional_addASN1 tCtx0 _ rest (by decide) hlen,
     attrLoop_signed oid time md _ _ h3 hok ht hlen]
 
@@ -413,8 +455,8 @@ theorem signedAttrsBody_length_le (x : SignInputs) (certsOk : Bytes → Bool) (h
     have h4 := h.mdLen
     simp only [List.length_append] at h1
     omega
-  unfold SignInputs.attrs signedAttrsBody
-  simp only [List.length_append]
+  unfold SignInputs.attrs
+  rw [signedAttrsBody_length]
   omega
 
 theorem signerBody_length_le (x : SignInputs) (certsOk : Bytes → Bool) (h : x.WF certsOk) :
@@ -585,30 +627,42 @@ theorem findMD_md {f : Nat} (d rest : Bytes) (acc : Option Bytes) (hf : 0 < f)
       read_addOctets_nil d h3]
     rfl
 
+/-- three turns of the specification's messageDigest search over three concatenated elements -/
+theorem findMD_three {e1 e2 e3 : Bytes} {g1 g2 g3 : Option Bytes → Option Bytes}
+    (acc : Option Bytes) (f : Nat) (hf : 3 ≤ f)
+    (h1 : ∀ f r acc, 0 < f → Spec.findMD f (e1 ++ r) acc = Spec.findMD (f - 1) r (g1 acc))
+    (h2 : ∀ f r acc, 0 < f → Spec.findMD f (e2 ++ r) acc = Spec.findMD (f - 1) r (g2 acc))
+    (h3 : ∀ f r acc, 0 < f → Spec.findMD f (e3 ++ r) acc = Spec.findMD (f - 1) r (g3 acc)) :
+    Spec.findMD f (e1 ++ e2 ++ e3) acc = some (g3 (g2 (g1 acc))) := by
+  have e : e1 ++ e2 ++ e3 = e1 ++ (e2 ++ (e3 ++ [])) := by simp
+  rw [e, h1 _ _ _ (by omega), h2 _ _ _ (by omega), h3 _ _ _ (by omega), findMD_nil]
+
 theorem findMD_signed (oid : List Nat) (time md : Bytes)
     (hlen : (signedAttrsBody oid time md).length < 2^32) :
     Spec.findMD (signedAttrsBody oid time md).length (signedAttrsBody oid time md) none =
       some (some md) := by
-  have hf : 3 ≤ (signedAttrsBody oid time md).length := by
-    unfold signedAttrsBody attrSeq
-    simp only [List.length_append]
-    have := addASN1_length_ge tSEQ (oidOr oidContentType ++ addASN1 tSET (oidOr oid))
-    have := addASN1_length_ge tSEQ (oidOr oidSigningTime ++ addASN1 tSET (addASN1 tUTC time))
-    omega
+  have hf : 3 ≤ (signedAttrsBody oid time md).length := signedAttrsBody_length_ge oid time md
   generalize (signedAttrsBody oid time md).length = f at hf
-  unfold signedAttrsBody at hlen ⊢
-  have h1 : (attrSeq oidContentType (oidOr oid)).length < 2^32 := by
-    simp only [List.length_append] at hlen; omega
-  have h2 : (attrSeq oidSigningTime (addASN1 tUTC time)).length < 2^32 := by
-    simp only [List.length_append] at hlen; omega
-  have h3 : (attrSeq oidMessageDigest (addOctets md)).length < 2^32 := by
-    simp only [List.length_append] at hlen; omega
-  rw [List.append_assoc,
-    findMD_other oidContentType _ _ _ (by omega) (by decide) (by decide) h1,
-    findMD_other oidSigningTime _ _ _ (by omega) (by decide) (by decide) h2]
-  have e : attrSeq oidMessageDigest (addOctets md) = attrSeq oidMessageDigest (addOctets md) ++ [] := by
-    simp
-  rw [e, findMD_md md _ _ (by omega) h3, findMD_nil]
+  rw [signedAttrsBody_length] at hlen
+  have h1 : (attrSeq oidContentType (oidOr oid)).length < 2^32 := by omega
+  have h2 : (attrSeq oidSigningTime (addASN1 tUTC time)).length < 2^32 := by omega
+  have h3 : (attrSeq oidMessageDigest (addOctets md)).length < 2^32 := by omega
+  have p1 : ∀ f r acc, 0 < f → Spec.findMD f (attrSeq oidContentType (oidOr oid) ++ r) acc =
+      Spec.findMD (f - 1) r (id acc) :=
+    fun f r acc hf => findMD_other oidContentType _ r acc hf (by decide) (by decide) h1
+  have p2 : ∀ f r acc, 0 < f → Spec.findMD f (attrSeq oidSigningTime (addASN1 tUTC time) ++ r) acc =
+      Spec.findMD (f - 1) r (id acc) :=
+    fun f r acc hf => findMD_other oidSigningTime _ r acc hf (by decide) (by decide) h2
+  have p3 : ∀ f r acc, 0 < f → Spec.findMD f (attrSeq oidMessageDigest (addOctets md) ++ r) acc =
+      Spec.findMD (f - 1) r ((fun _ => some md) acc) :=
+    fun f r acc hf => findMD_md md r acc hf h3
+  rcases signedAttrsBody_cases oid time md with h | h | h | h | h | h <;> rw [h]
+  · exact findMD_three none f hf p1 p2 p3
+  · exact findMD_three none f hf p1 p3 p2
+  · exact findMD_three none f hf p2 p1 p3
+  · exact findMD_three none f hf p2 p3 p1
+  · exact findMD_three none f hf p3 p1 p2
+  · exact findMD_three none f hf p3 p2 p1
 
 theorem specSigners_one {f : Nat} {s : Bytes} {x : Spec.SpecSigner} (hf : 0 < f)
     (hs : s.isEmpty = false) (h : Spec.parseSpecSigner s = some (x, [])) :
